@@ -104,8 +104,9 @@ DecAcc0(lim) == [st |-> InitState(lim), dead |-> FALSE, srv |-> TRUE, nxt |-> TR
 DecBlockStep(a, blk, t) ==
   IF a.dead THEN a
   ELSE LET D  == DecodeBlock(a.st, blk.in)
+           rn == IF blk.same THEN blk.srv ELSE blk.nxt     \* the harness omits "nxt" when it equals "srv"
            sv == IF a.srv THEN DecVerdict(D, blk.srv) ELSE "skip"
-           nv == IF a.nxt THEN DecVerdict(D, blk.nxt) ELSE "skip"
+           nv == IF a.nxt THEN DecVerdict(D, rn) ELSE "skip"
            xv == IF a.x THEN SelfVerdict(D, blk.x) ELSE "skip"
            srvl == a.srv /\ sv = "ok"
            nxtl == a.nxt /\ nv = "ok" IN
@@ -115,7 +116,7 @@ DecBlockStep(a, blk, t) ==
      never |-> a.never \/ D.never,
      msgs |-> a.msgs
               \o (IF sv = "bad" THEN << Msg("BAD", t, DecClass(D, blk.srv, "srv", a.never), "srv", a.bi) >> ELSE <<>>)
-              \o (IF nv = "bad" THEN << Msg("BAD", t, DecClass(D, blk.nxt, "nxt", a.never), "nxt", a.bi) >> ELSE <<>>)
+              \o (IF nv = "bad" THEN << Msg("BAD", t, DecClass(D, rn, "nxt", a.never), "nxt", a.bi) >> ELSE <<>>)
               \o (IF xv = "bad" THEN << Msg("SELFBAD", t, "x", "x", a.bi) >> ELSE <<>>),
      bi |-> a.bi + 1]
 
